@@ -8,7 +8,7 @@
 From Coq Require Import List Bool Arith Permutation Relations.
 From Leaspy Require Import Dag.DagModel Dag.DagProofs Dag.DagExamples Dag.GraphLit.
 From Leaspy Require Import Dag.FromDict Dag.FromDictProofs Dag.FromDictExamples Dag.FromDictSrc Dag.FromDictTie.
-From LeaspyGen Require Import GenGraphs GenC15FromDict.
+From LeaspyGen Require Import GenGraphs GenC15FromDict GenC15Defs.
 Import ListNotations.
 
 (** An accepted graph is listed so that every node appears exactly once and strictly after everything it
@@ -193,3 +193,13 @@ Print Assumptions C15_key_set_check.
 Theorem C15_from_dict_source : gen_source = model_source.
 Proof. exact fromdict_source_tie. Qed.
 Print Assumptions C15_from_dict_source.
+
+(** Computed on the definitions regenerated from the running code (coq/gen/GenC15Defs.v: every variable of every shipped
+    configuration's [get_variables_specs()], a NamedInputFunction by its assigned names, any other function by its signature):
+    the classes, the direct ancestors and the order of the graph literals of GenGraphs.v — the graph hypotheses other
+    properties compute with — are exactly what [from_dict] derives from those signatures. *)
+Theorem C15_shipped_definitions :
+  map fst shipped_defs = map sg_label shipped /\
+  forallb (fun p => defs_match (snd p) (snd (fst p))) (combine shipped_defs shipped) = true.
+Proof. split; vm_compute; reflexivity. Qed.
+Print Assumptions C15_shipped_definitions.
